@@ -430,6 +430,13 @@ CLAIMED["C04"]["text"] += (" Round 6: SD2's resource fork is modelled byte for b
                             "(sd2_short_data_reopens; old rule refuted), fork independent of heap history (sd2_rsrc_deterministic); the composition parse (rsrc c) = c is proved for instances by kernel evaluation only (sd2_reopen_info_instances).")
 CLAIMED["C03"]["text"] += (" Round 6: sd2_parse_in_bounds -- for ARBITRARY fork bytes every read of sd2_parse_rsrc_fork / parse_str_rsrc lies inside the fork, the 32-byte string buffers keep their NUL, the loops end within len / 12 + 1 iterations "
                             "(sd2_parse_never_fuel); NIST files shorter than the header are refused whatever they contain (nist_parse_short_file); new monitored class: truncated files of every container under valgrind memcheck on a plain build (vlib/vgcheck.py).")
+CLAIMED["C12"]["text"] += (" Round 6: THE PREDICATE is Lean: Sf.AbsMeta.judge (lean/SfModel/AbsMeta.lean) evaluated by `sfmodel abs-meta` on the library's transcripts decides; vlib/meta.py `judge` is the cross-check. Every script is also judged against its TWIN run "
+                            "(without the refused / late / unsupported calls: audio and every untouched item equal) and, for a sample, a PERMUTED run (order independence); getters of kinds never set must answer absent. accepted_iff: the predicate is equivalent to the statement "
+                            "in mathematical form (meaning + completeness); normBext_model / normString_model tie its normalisations to the models'. meta_roundtrip is one theorem per container over handle states also for AIFF and CAF (Sf.MetaXS.XState) and covers strings set after the audio (meta_roundtrip_riff_any).")
+CLAIMED["C12"]["text"] += " Repaired in round 6: a refused SFC_SET_CHANNEL_MAP_INFO erased the channel map set before it (KF-C12-CHMAP-REFUSED; chmap_refused_keeps_map / chmap_refused_erases_old_rule; twin_run_model: a history and the history without the refused calls end in the same handle state)."
+CLAIMED["C13"]["text"] += (" Round 6: THE PREDICATE is Lean: Sf.AbsMeta.Chunks.judge evaluated by `sfmodel abs-meta chunks` decides; c13.py `predicate` is the cross-check. New clauses: single-step iterator calls against the complete iteration (next after last is NULL, "
+                            "min (datalen, size) bytes copied), the container's audio chunk visited exactly once by a full iteration, twin run without chunks (audio and strings equal). Chunks.accepted_iff (meaning + completeness), model_entries_accepted / model_getData_accepted / "
+                            "model_refusals_allowed (the read table of chunks_roundtrip_within_cap, getData and accepts pass the clauses).")
 
 
 def main():
